@@ -1,17 +1,25 @@
 #!/bin/bash
-# Build the whole Lean side offline: models, lemmas, property theorems of every claimed check
-# (LdarModel.lean imports them) and every driver executable.  Each check rebuilds its own targets
-# again (no-op when up to date), so a driver that fails to build here only fails its own check.
+# Build the whole Lean side offline: models, lemmas, property theorems of every claimed check, the layer-3
+# ties and every driver executable.  Every check rebuilds its own targets again (no-op when up to date) and
+# reports a target that does not build as a broken obligation of its own property, so a module that fails
+# here (e.g. a table obligation over Generated/*.lean that the current /repo no longer meets) must not
+# stop the others from being built: only a missing toolchain makes this script fail.
 here="$(cd "$(dirname "$0")" && pwd)"
-# tables extracted from /repo first, so that the build starts from the current source
+command -v lake >/dev/null 2>&1 || { echo "setup: lake not found"; exit 1; }
+# tables and translated sources extracted from /repo first, so that the build starts from the current source
 "$here/tools/regen.sh" || true
 cd "$here/lean" || exit 1
-lake build LdarModel || { echo "setup: library build failed"; exit 1; }
-# layer-3 tie of the emission classes: generated from the source; a failure is reported by C02-C04/C11
-lake build LdarModel.Props.EmissionTie LdarModel.Props.EmissionOnSource >/dev/null 2>&1 || echo "setup: emission tie did not build (C01-C04/C10/C11 will report it)"
-lake build LdarModel.Props.CrewTie >/dev/null 2>&1 || echo "setup: crew tie did not build (C07/C08/C10 will report it)"
-lake build LdarModel.Props.PlannerTie >/dev/null 2>&1 || echo "setup: planner tie did not build (C06 will report it)"
-lake build LdarModel.Props.FollowUpTie >/dev/null 2>&1 || echo "setup: follow-up tie did not build (C09 will report it)"
+if ! lake build LdarModel >/dev/null 2>&1; then
+  echo "setup: the library did not build as a whole; building module by module (the owning checks will report what fails)"
+  for f in LdarModel/Props/*.lean; do
+    m="LdarModel.Props.$(basename "$f" .lean)"
+    lake build "$m" >/dev/null 2>&1 || echo "setup: $m did not build"
+  done
+fi
+# layer-3 ties: generated from the source; a failure is reported by the checks that use them
+for m in EmissionTie EmissionOnSource CrewTie PlannerTie FollowUpTie; do
+  lake build "LdarModel.Props.$m" >/dev/null 2>&1 || echo "setup: LdarModel.Props.$m did not build (the checks that use it will report it)"
+done
 exes=$(grep -E '^name = "drv_' lakefile.toml | sed 's/name = "\(.*\)"/\1/')
 for e in $exes; do
   lake build "$e" >/dev/null 2>&1 || echo "setup: driver $e did not build (its check will report it)"
